@@ -250,6 +250,39 @@ end
 
 def exportDoc (j : JS) : Res GoVal := .ok (docOf j)
 
+/-! ### (c) calls: the equivalent in-language call (ES5 §11.2.3, §15.3.4.4, §10.4.3) -/
+
+/-- thisArg of the equivalent in-language call: `probe.call(T, a…)`, `obj.probe(a…)`, `probe(a…)`,
+    where T is the counterpart of the Go value -/
+inductive LangThis
+  | self
+  | undef
+  | counterpart (g : GoVal)
+
+def langThis : Path → LangThis
+  | .valueCall none => .self                     -- probe.call(obj, a…)
+  | .valueCall (some g) => .counterpart g        -- probe.call(T, a…)
+  | .objectCall => .self                         -- obj.probe(a…)   (§11.2.3: this = base of the reference)
+  | .ottoCallNil member => if member then .self else .undef      -- obj.probe(a…) / probe(a…)
+  | .ottoCallThis _ g => .counterpart g          -- (src).call(T, a…)
+
+/-- §10.4.3 entering function code (non-strict): undefined/null -> global object, primitives -> ToObject -/
+def enterThis (E : Env) : LangThis → Res ThisObs
+  | .self => .ok .self
+  | .undef => .ok .global
+  | .counterpart g => (view E g).bind fun v => match v with
+    | .undefined => .ok .global
+    | .null => .ok .global
+    | .object => .err
+    | v => .ok (.boxed v)
+
+def argViews (E : Env) : List GoVal → Res (List View)
+  | [] => .ok []
+  | g :: r => (view E g).bind fun v => (argViews E r).map fun vs => v :: vs
+
+def langCall (E : Env) (p : Path) (args : List GoVal) : Res (ThisObs × List View) :=
+  (enterThis E (langThis p)).bind fun t => (argViews E args).map fun vs => (t, vs)
+
 /-! ### Deviation regions (decidable predicates over the request; witnesses in Theorems.lean) -/
 namespace Dev
 
